@@ -317,6 +317,18 @@ func c06Run(c *Ctx) {
 			}
 		}
 	}
+	// fault-free guards: the right operand of এবং / && is not evaluated when the left one is nil, 0 or "" (and of বা / || when it is truthy)
+	for _, src := range []string{
+		Lines(Var("jon", "nil"), If("jon "+K["and"]+" jon.num >= 50", Print(`"pass"`)), Var("left", "0"), Var("row", "[1]"), If("left && row[left - 1] > 0", Print(`"has"`)), Var("nm", `""`), Print("nm && nm.len"), Print(`jon || "none"`), Print("left "+K["or"]+" 7"), Var("cfg", "{}"), Print(`1 || cfg.missing`), Print(`"x" `+K["or"]+` cfg.missing.deep`), Print(`"end"`)),
+		Lines(Fun("safe", "o", " "+Ret("o && o.v")+" "), Print("safe(nil)"), Print("safe(0)"), Print(`safe("")`), Print("safe("+False()+")"), Print("safe({v: 3})"), Var("i", "0"), Var("xs", "[]"), While("i < "+BI("len", "xs")+" && xs[i] != 9", "{ i = i + 1; }"), Print("i")),
+	} {
+		if c.Mine() {
+			c06Judge(c, &Case{Gen: "fault-free-controls", Src: src, Stdin: stdin})
+		}
+		if c.Mine() {
+			c06Judge(c, &Case{Gen: "fault-free-controls-cli", Mode: "cli", Src: src, Stdin: stdin})
+		}
+	}
 	// programs that perform no operation at all are fault-free too
 	for _, src := range []string{"", "\n", "// only a comment\n", "/* block\n comment */\n", "   \n\t\n", "// a\n// b", "/**/"} {
 		if c.Mine() {
